@@ -624,12 +624,18 @@ func (s *Subscription) processCollectionEvent(event *rescache.ResourceEvent) {
 				return
 			}
 
-			// Quick exit if added resource is already sent to client
-			if sub.IsSent() {
+			// Quick exit if added resource is already sent to client, or
+			// already referenced by this subscription.
+			first := s.refs[rid].count == 1
+			if sub.IsSent() || !first {
 				// We increase the indirectsent references, otherwise increased
 				// when calling sub.GetRPCResources, since we have no new
-				// resources to populate.
-				sub.indirectsent++
+				// resources to populate. Only the first reference from this
+				// subscription counts, as it is only counted down once, when
+				// the last reference is removed.
+				if first {
+					sub.indirectsent++
+				}
 				s.c.Send(rpc.NewEvent(s.rid, event.Event, rpc.AddEvent{Idx: idx, Value: v.RawMessage}))
 				return
 			}
@@ -695,6 +701,12 @@ func (s *Subscription) processModelEvent(event *rescache.ResourceEvent) {
 					s.c.Errorf("Subscription %s: Error subscribing to resource %s: %s", s.rid, v.RID, err)
 					// TODO handle error properly
 					return
+				}
+				// A resource already referenced by this subscription is
+				// already counted as indirectly sent, and is only counted
+				// down once, when the last reference is removed.
+				if s.refs[v.RID].count > 1 {
+					continue
 				}
 				hasUnsent = hasUnsent || !sub.IsSent()
 				if subs == nil {
